@@ -108,7 +108,7 @@ def strategy(tier):
 
 
 def examples(tier):
-    return 1000 if tier == "quick" else 12000
+    return 1000 if tier == "quick" else 40000
 
 
 def _shape(s):
